@@ -323,7 +323,11 @@ func (g *histGen) compose() {
 }
 
 func (g *histGen) copy() {
-	g.add(Req{Kind: "copy", B: g.bucket(), N: g.nameNoSlash(), B2: g.bucket(), N2: g.name()})
+	r := Req{Kind: "copy", B: g.bucket(), N: g.nameNoSlash(), B2: g.bucket(), N2: g.name()}
+	if g.rng.Intn(6) == 0 {
+		r.B2, r.N2 = r.B, r.N // rewrite in place
+	}
+	g.add(r)
 }
 
 func (g *histGen) del() {
@@ -440,5 +444,8 @@ func genHist(prop, out, tier string, rng *rand.Rand, oracle string) {
 		}
 	}
 	RunTasksNT(sink, tasks, histNontrivial)
-	sink.Close(fmt.Sprintf("random histories (focus %s) of about %d requests over 2 buckets x %d names x %d payloads, all upload protocols with random chunkings, re-sent ranges, status queries, gzip bodies, wrong/invalid MD5, the three download URL forms, patches incl. read-only fields, listings, compose, copy, deletes, conditions; each program runs on the memory and the file store (names representable as files) and, one in three, on the memory store with trap names; distinct = distinct canonical (program, observation) text; non-trivial = at least one successful content write and one non-empty successful download", prop, length, len(namesRepresentable), len(payloads)), false)
+	if prop == "C02" {
+		genUrls(sink, tier, rng) // URL forms against the model of the four unanchored patterns
+	}
+	sink.Close(fmt.Sprintf("(C02 additionally: decoded request paths - every URL form x bucket x name from pools with traps, plus random fragment concatenations - parsed by the real ParseGcsUrl and compared with the Coq model of the four unanchored patterns; and the round trip of the public form for every (bucket, name) pair) random histories (focus %s) of about %d requests over 2 buckets x %d names x %d payloads, all upload protocols with random chunkings, re-sent ranges, status queries, gzip bodies, wrong/invalid MD5, the three download URL forms, patches incl. read-only fields, listings, compose, copy, deletes, conditions; each program runs on the memory and the file store (names representable as files) and, one in three, on the memory store with trap names; distinct = distinct canonical (program, observation) text; non-trivial = at least one successful content write and one non-empty successful download", prop, length, len(namesRepresentable), len(payloads)), false)
 }
